@@ -956,17 +956,22 @@ void product_or_sum(World& w, const Op& op, const char* what, int table, Categor
    }
    else {
       elems = pick_types(w, op);
-      impl::Warehouse<Type> wh;
-      for (auto t : elems) wh.push_back(*t);
-      result = &get_wh(wh);
+      // the client's Warehouse lives on the heap, goes on being used as scratch space after the request and is then
+      // destroyed: a node that kept a reference into it instead of its own copy shows extra members, then dead storage
+      auto wh = std::make_unique<impl::Warehouse<Type>>();
+      for (auto t : elems) wh->push_back(*t);
+      result = &get_wh(*wh);
+      wh->push_back(w.L().void_type());
+      wh->push_back(w.L().ellipsis_type());
+      wh.reset();
       factory = std::string("get_") + what + "(Warehouse)";
    }
    std::vector<Val> xs;
    for (auto t : elems) xs.push_back(N(*t));
    auto again = [get_wh, elems]() mutable {
-      impl::Warehouse<Type> wh;
-      for (auto t : elems) wh.push_back(*t);
-      return Entity{Aux::None, static_cast<const ipr::Node*>(&get_wh(wh))};
+      auto wh = std::make_unique<impl::Warehouse<Type>>();
+      for (auto t : elems) wh->push_back(*t);
+      return Entity{Aux::None, static_cast<const ipr::Node*>(&get_wh(*wh))};
    };
    w.unified(w.intern_name(factory), table, std::string(what) + "|" + seq_key(elems), ent(*result), cat, again)
       .exp("elements", Val::list(xs))
